@@ -162,7 +162,7 @@ PROPS = {
                    "atomicity and absence of deadlock; the table is regenerated from mappollard.go on every run and re-checked. "
                    "Schedules are additionally sampled with the race detector and with a writer suspended at hook sites.",
         technique="Coq protocol theorems + table regenerated from source + race-detector/paused-writer runs",
-        race=True, gen=gen_lock, timeout=3000,
+        race=True, gen=gen_lock, timeout=3000, coq_targets=["theories/Proofs/LockSafe.vo"],
         note="sync.RWMutex implementing the protocol, the Go memory model and the scheduler are trusted; lockscan (source translator) is trusted.",
     ),
     "C13": dict(
@@ -211,7 +211,7 @@ PROPS = {
                    "must come out clean. One named value-preserving exemption (MapPollard.Undo) and the stability of earlier results "
                    "of three methods are covered by the dynamic snapshot run.",
         technique="Coq verified checker + effect IR regenerated from source (go/ssa) + dynamic argument snapshots",
-        gen=gen_eff, timeout=3000,
+        gen=gen_eff, timeout=3000, coq_targets=["theories/Proofs/EffectSound.vo"],
         note="SSA-to-IR mapping and the table of library primitives (copy, append, sort, io, binary, fmt) are trusted; see tools/effscan/README.md.",
     ),
     "C10": dict(
